@@ -131,6 +131,51 @@ def numbering(chk, sf, dprog, cfg):
                         vi_ok = a_v == (item, ".1") and a_i == (item, ".0")
             ok = src_ok and vi_ok
             detail = "map(enumerate(%s)), variant_index(item.1, item.0): %s" % (why, vi_ok)
+    if not ok:
+        # loop form: `let mut i = 0; for v in variants { if should_skip(&v.attrs) { continue } .. variant_index(v, i); i += 1; .. }`
+        for (sb, sbb, sct, elem, consumer) in cd.member_iteration_sites(dprog):
+            if sb.path != b.path or not elem.endswith("Variant") or consumer is not None:
+                continue
+            okg, why, keep = cd.skip_guard_in_loop(dprog, b, sct)
+            li = cd.loop_item(b, sct)
+            if not okg or li is None:
+                detail = why
+                continue
+            item = li[1]
+            vis = [(bb, b.call_term(t, bb=bb)) for bb, t in b.calls() if mir.strip_generics(b.callee_name(t)) == cd.D + "utils::variant_index"]
+            if len(vis) != 1:
+                detail = "variant_index calls in the loop: %d" % len(vis)
+                continue
+            vbb, vc = vis[0]
+            a_v = paths.access_path(b, vc[2][0], roots=[item])
+            raw = [t for bb, t in b.calls() if bb == vbb][0]["args"][1]
+            pl = raw.get("copy") or raw.get("move")
+            # through compiler temporaries to the counter variable itself
+            for _ in range(6):
+                if pl is None or pl["p"]:
+                    break
+                ds = b.defs().get(pl["l"], [])
+                if len(ds) == 1 and ds[0][0] == "assign" and ds[0][3]["k"] == "use" and ("copy" in ds[0][3]["op"] or "move" in ds[0][3]["op"]):
+                    pl = ds[0][3]["op"].get("copy") or ds[0][3]["op"].get("move")
+                else:
+                    break
+            incs = []
+            if pl is not None and not pl["p"]:
+                sites_ = b.def_sites(pl["l"])
+                ini = [dt for dbb, dt in sites_ if mir.uncast(dt)[0] == "int"]
+                for dbb, dt in sites_:
+                    dt0 = dt
+                    if dt0[0] == "field" and dt0[2] == 0:
+                        dt0 = dt0[1]   # checked add: (i + 1).0
+                    if dt0[0] == "binop" and dt0[1] in ("Add", "AddWithOverflow", "AddUnchecked") and any(mir.uncast(x)[:2] == ("int", 1) for x in (dt0[2], dt0[3])):
+                        incs.append(dbb)
+                ini_ok = len(ini) == 1 and mir.uncast(ini[0])[:2] == ("int", 0) and len(sites_) == 2
+            else:
+                ini_ok = False
+            # one increment per kept variant, after the index was taken
+            inc_ok = len(incs) == 1 and b.dominates(keep, incs[0]) and b.dominates(vbb, incs[0]) and b.dominates(keep, vbb)
+            ok = a_v is not None and a_v[0] == item and paths.norm(a_v[1]) in ("", "?") and ini_ok and inc_ok
+            detail = "%s; variant_index(item, counter): counter starts at 0: %s, incremented once per kept variant after use: %s" % (why, ini_ok, inc_ok)
     chk.expect(ok, "R3.2", "scale-info-derive:filter-before-enumerate", b.where(), detail, cfg)
     # codec side (syn)
     c = sf.fn("codec_derive", "try_get_variants")
@@ -233,7 +278,7 @@ def emission(chk, dprog, cfg):
         if owner.startswith(cd.D + "attr::"):
             continue
         n += 1
-        ok, why = cd.is_skip_filter(dprog, consumer)
+        ok, why = cd.is_skip_filter(dprog, consumer, body=b, site=ct)
         chk.expect(ok, "R3.4", "iteration:%s:%s" % (owner, elem.split("::")[-1]), b.where(bb),
                    "%s over %s: %s" % (path_str(ct)[:60], elem.split("::")[-1], why) + ("" if ok else
                    " -- #[codec(skip)] members are not encoded, so they must not be described (nor bound)"), cfg)
